@@ -393,6 +393,11 @@ def run_shard(desc):
             P = env.payloads()
             for kind in KINDS:
                 for pname, (prolog, ref, has_decl) in P.items():
+                    if kind.startswith('nonseek') or kind in ('BytesIO', 'remote_url'):
+                        # the declaration lies beyond the first 64 KiB of the source
+                        for r in run_instance(env, mode, kind, prolog, ref, has_decl, 'utf-8', False,
+                                              '<!--' + 'y' * 70000 + '-->', st, pname):
+                            core.report(st, PROPERTY, r)
                     if kind in ('bytes', 'BytesIO', 'binary_file', 'path'):
                         # byte sources through lxml's iterparse, which can read encodings the scanner cannot
                         for enc in ('utf-8', 'iso-8859-1') + MULTIBYTE[:2]:
